@@ -59,6 +59,15 @@ class C14(Prop):
             elif ok_derivation:
                 want, strict = strip_attrs(inp, owned_names(r.meta['traits'])), True
             else:
+                # derivation failed: the item is still emitted, never with its `derive_ex` attributes (they would be
+                # expanded again) - and with the helper attributes of the requested traits removed, unless the request
+                # itself could not be read (then no helper attribute is known yet and only `derive_ex` goes)
+                full = strip_attrs(inp, owned_names(r.meta['traits']) | {'derive_ex'})
+                only_dx = strip_attrs(inp, {'derive_ex'})
+                if got not in (full, only_dx):
+                    failures.append(dict(**{'class': 'item-on-error-keeps-attributes', 'mode': 'item'}, input=r.input_text(),
+                                         expected=[full, only_dx], observed=got, strict=True))
+                    continue
                 want, got, strict = strip_attrs(inp, HELPER_NAMES), strip_attrs(got, HELPER_NAMES), False
             if want != got:
                 failures.append(dict(**{'class': classify(r, want, got), 'mode': 'item'}, input=r.input_text(),
